@@ -521,6 +521,29 @@ def directed_search(pt, proc, model_issues, rng, budget=60):
             for via in ("default_decorator", "default_add"):
                 cfgs.append({"bare": {}, "clear": None, "methods": [{"name": "m0", "hid": 0, "shape": "v0", "mc": {"no_op": "call"}, "via": via}]})
     seen, found, tried = set(), [], 0
+    # Router.method keyword sets on which code and model disagree: register on the real code with the keywords as the
+    # user wrote them and judge every call against the registration AS WRITTEN (no keyword -> no_op=CALL; otherwise
+    # the missing ones are NEVER; all NEVER -> no call with that selector may run the handler)
+    for it in model_issues:
+        if "kwargs" not in it:
+            continue
+        kw = {k: v for k, v in it["kwargs"].items() if k != "clear_state"}
+        if "clear_state" in it["kwargs"]:
+            continue        # refused by the constructors; nothing to dispatch
+        written = {"no_op": "call"} if not it["kwargs"] else {k: v for k, v in kw.items() if v != "never"}
+        for bare in ({}, {"opt_in": ["expr", "all"]}):
+            cfg = {"bare": bare, "clear": None,
+                   "methods": [{"name": "m0", "hid": 0, "shape": "v0", "mc": written, "via": "decorator_kw", "kw": kw}]}
+            tried += 1
+            args = [L.selector("m0()void")]
+            for oc in (0, 1, 2, 4, 5):
+                for appid in (77, 0):
+                    bad, info = violates(pt, proc, cfg, 8, None, "approval", args, oc, appid)
+                    if bad:
+                        found.append({"cfg": cfg, "version": 8, "opt": None, "program": "approval", "args": [a.hex() for a in args],
+                                      "desc": {"first": "sel:m0", "extras": 0}, "oc": oc, "appid": appid, "level": "oracle"})
+            if found:
+                return found[:3], tried
     # registrations the model refuses but the code accepts (duplicate signature / colliding selectors): call every
     # method of such a router on what its own MethodConfig allows
     for it in model_issues:
